@@ -112,6 +112,9 @@ Expected(c) ==
     [] c = "max-int"           -> <<"panic", "ok", "ok">>                        \* Add(math.MaxInt)
     [] c = "min-int-plus-one"  -> <<"panic", "ok">>
     [] c = "neg-max-on-empty"  -> <<"panic", "panic", "panic">>                  \* Add(-MaxInt32) on an empty caster underflows
+    \* Add(2); Send in flight; receive; Add(-3) (unbalanced, during the Send); receive; then Add(0); Send:
+    \* the Add, the Send in flight and every later call report it
+    [] c = "unbalanced-during-send" -> <<"panic", "panic", "panic", "panic">>
 
 TMisuse ==
   /\ IsEv("misuse") /\ Consume
